@@ -48,6 +48,8 @@ class Check(HCheck):
         for ow in (False, True):
             sp.append(Space(Cfg("domain", {A: "path1"}, overwrite=ow), ops, d, name="twin/domain+path1/overwrite=%s" % ow))
         sp.append(Space(Cfg("never"), ops[:-1], d, name="twin/never"))
+        huge = [A + L.long_stem(n, f) for n, f in ((700, b"a"), (4000, b"b"), (20000, b"c"))]
+        sp.append(Space(Cfg("never"), [al.page(u, i % 2 == 0) for i, u in enumerate(huge)] + [al.page(huge[2] + b"p:k|"), al.links((huge[0], huge[2]))], 3, name="twin/very-long-stems"))
         sp.append(Space(Cfg("subdomain", {A: "path2", Ax: "path1"}), ops, d, roots=[al.R1], name="twin/subdomain+2rules"))
         return sp
 
